@@ -66,6 +66,8 @@ pub enum Strategy {
     /// by `shared_seed` alone: two generators with different labels and the same window agree
     /// exactly there and are independent everywhere else
     SharedWindow { lo: u64, hi: u64, shared_seed: u64 },
+    /// like SharedWindow, but the shared positions all hold the same constant byte
+    ConstWindow { lo: u64, hi: u64, byte: u8 },
     /// the first `groups` sampler iterations get these nine base-sampler bytes and this sign
     /// byte, and zero Bernoulli bytes (accept): the first `groups` samples are all the same
     /// chosen value; everything after is honest
@@ -90,6 +92,7 @@ impl Strategy {
             Strategy::CounterPrefix { prefix } => format!("counter-{}", prefix),
             Strategy::ForcedSalt { .. } => "forced-salt".into(),
             Strategy::SharedWindow { lo, hi, .. } => format!("shared-window-{}-{}", lo, hi),
+            Strategy::ConstWindow { lo, hi, byte } => format!("const-window-{}-{}-{:02x}", lo, hi, byte),
             Strategy::PlantSamples { groups, .. } => format!("plant-{}-samples", groups),
             Strategy::Directed { bits } => format!("directed-{}-calls", bits.len()),
             Strategy::PlantPerCandidate { groups, every, .. } => format!("plant-{}-samples-every-{}-candidates", groups, every),
@@ -146,7 +149,7 @@ impl ScriptedRng {
             Strategy::ZeroBase { groups } => group < *groups,
             Strategy::ConstPrefix { prefix, .. } => self.total_u32 < *prefix,
             Strategy::CounterPrefix { prefix } => self.total_u32 < *prefix,
-            Strategy::ForcedSalt { .. } | Strategy::SharedWindow { .. } => false,
+            Strategy::ForcedSalt { .. } | Strategy::SharedWindow { .. } | Strategy::ConstWindow { .. } => false,
             Strategy::PlantSamples { groups, .. } => group < *groups,
             Strategy::Directed { bits } => (group as usize) < bits.len(),
             Strategy::PlantPerCandidate { groups, every, .. } => self.cand % *every == 1 % *every && (self.total_u32 - self.cand_start) / 17 < *groups,
@@ -156,6 +159,9 @@ impl ScriptedRng {
     fn window_byte(&mut self, own: u8) -> u8 {
         let p = self.outpos;
         self.outpos += 1;
+        if let Strategy::ConstWindow { lo, hi, byte } = &self.strategy {
+            return if p >= *lo && p < *hi { *byte } else { own };
+        }
         if let (Some(sh), Strategy::SharedWindow { lo, hi, .. }) = (self.shared.as_mut(), &self.strategy) {
             let b = sh.next_u32() as u8;
             if p >= *lo && p < *hi {
@@ -212,7 +218,7 @@ impl ScriptedRng {
                 }
                 Strategy::ConstPrefix { byte, .. } => byte,
                 Strategy::CounterPrefix { .. } => self.total_u32 as u8,
-                Strategy::Honest | Strategy::ForcedSalt { .. } | Strategy::SharedWindow { .. } => honest as u8,
+                Strategy::Honest | Strategy::ForcedSalt { .. } | Strategy::SharedWindow { .. } | Strategy::ConstWindow { .. } => honest as u8,
                 Strategy::Directed { bits } => {
                     let group = (self.total_u32 / 17) as usize;
                     if slot < 9 {
@@ -266,7 +272,7 @@ impl RngCore for ScriptedRng {
                 dest.copy_from_slice(salt);
             }
         }
-        if self.shared.is_some() {
+        if self.shared.is_some() || matches!(self.strategy, Strategy::ConstWindow { .. }) {
             for d in dest.iter_mut() {
                 *d = self.window_byte(*d);
             }
